@@ -98,6 +98,17 @@ func c08Mutants() []c08Mutant {
 			}
 			return append([][]byte{e.txs[0], tx2}, e.txs[1:]...)
 		}},
+		{name: "later transaction bundling two block messages", build: func(e *c08Env) [][]byte {
+			num, seq, _ := e.h.ch.Account(sdk.AccAddress(e.h.ch.W.Vals[e.prop].Cons))
+			mk := func() sdk.Msg {
+				return &goatxtypes.MsgNewEthBlock{Proposer: e.h.ch.W.ValAddrStr(e.prop), Payload: clonePayload(e.payload)}
+			}
+			tx2, err := e.h.ch.W.SignTx(world.TxSpec{Msgs: []sdk.Msg{mk(), mk()}, Priv: e.h.ch.W.ValPriv(e.prop), AccNum: num, Seq: seq + 1, Timeout: uint64(e.height), Gas: 100_000_000})
+			if err != nil {
+				return nil
+			}
+			return append(append([][]byte{}, e.txs...), tx2)
+		}},
 		{name: "second message in the block transaction", build: func(e *c08Env) [][]byte {
 			p := clonePayload(e.payload)
 			return e.resign(p, e.prop, e.h.ch.W.ValAddrStr(e.prop), &goatxtypes.MsgNewEthBlock{Proposer: e.h.ch.W.ValAddrStr(e.prop), Payload: clonePayload(e.payload)})
@@ -477,7 +488,7 @@ func init() {
 		ID: "C08", Title: "Honest proposals are always accepted; accepted proposals are well-formed", Level: "exploration",
 		Rule: "one case = one cluster history (2..4 validators each running a node, CometBFT proposer rotation, 24/70 blocks) on a well-behaved execution layer: random locking requests (unlock bursts, claims >16, maturing unlocks), withdrawals, elections every 25 s, " +
 			"and relayer transactions gossiped into every mempool (valid votes, invalid votes, nonce gaps, expiring timeouts, non-proposer senders, malformed deposits). (a) every honest proposal must have <= 16 txs, be ACCEPTed by every node and its block message must succeed; " +
-			"(b) every third height the honest proposal is mutated by 27 operators (block message missing/second/duplicated/accompanied, foreign message, wrong parent/number/beacon root/author/recipient, system txs dropped/duplicated/reordered/altered/extra/miscounted, 0 or 2 gas requests, unknown-type or empty requests, future timestamp, nil payload, engine INVALID/SYNCING/ACCEPTED/error) with block hashes recomputed so that only the consensus-side checks can object; every node must refuse each; " +
+			"(b) every third height the honest proposal is mutated by 28 operators (block message missing/second/duplicated/accompanied/bundled in a later transaction, foreign message, wrong parent/number/beacon root/author/recipient, system txs dropped/duplicated/reordered/altered/extra/miscounted, 0 or 2 gas requests, unknown-type or empty requests, future timestamp, nil payload, engine INVALID/SYNCING/ACCEPTED/error) with block hashes recomputed so that only the consensus-side checks can object; every node must refuse each; " +
 			"(c) the same workload runs on the race-detector build with 0-4 ms engine jitter; every distinct race report with a goat frame is a violation. Non-trivial = every honest proposal and every mutant; distinct = (operator, system txs, txs).",
 		Assume: []string{"the fake execution client validates block hash consistency and known parents only", "race coverage is what the executed interleavings exhibit"},
 		Cases:  func(tier string) int { return map[string]int{"quick": 9, "thorough": 90}[tier] },
